@@ -525,6 +525,20 @@ def diff(a, b):
     return f"only in first: {sorted(sa - sb)[:4]}; only in second: {sorted(sb - sa)[:4]}; sizes {len(a)}/{len(b)}"
 
 
+_FIXED = None
+
+
+def fixed_impl():
+    """does the implementation contain the repair of C14-F4 (fixes_proposed/C14-F4.diff)?  probed at the witness:
+    `unit -> (int -> unit) -> int` without its unit arguments must keep the argument `int -> unit`"""
+    global _FIXED
+    if _FIXED is None:
+        from synth.syntax.type_system import INT, UNIT as U, Arrow
+        t = Arrow(U, Arrow(Arrow(INT, U), INT)).without_unit_arguments()
+        _FIXED = t == Arrow(Arrow(INT, U), INT)
+    return _FIXED
+
+
 def check_dsl(case, M):
     syntax = [[n, t] for n, t in case["syntax"]]
     bound = int(case["bound"])
@@ -533,7 +547,7 @@ def check_dsl(case, M):
     want, f4 = oracle_instances(syntax, bound)
 
     # ---- Lean model and executable specification
-    ans = dict((str(a[0]), a[1]) for a in M.ask([Sym("c14.inst"), bound, [[n, wire(t)] for n, t in syntax]]))
+    ans = dict((str(a[0]), a[1]) for a in M.ask([Sym("c14.inst"), int(fixed_impl()), bound, [[n, wire(t)] for n, t in syntax]]))
     m_once = msorted((str(p[0]), unwire(p[1])) for p in ans["model"])
     m_twice = msorted((str(p[0]), unwire(p[1])) for p in ans["twice"])
     m_spec = msorted((str(p[0]), unwire(p[1])) for p in ans["spec"])
@@ -548,12 +562,13 @@ def check_dsl(case, M):
         raise RuntimeError("Lean spec and harness oracle disagree: " + diff(m_spec, sorted(want)))
     if wf and m_safe == f4:
         raise RuntimeError("classifier of C14-F4: Lean and harness disagree")
-    if wf and m_safe:
+    if wf and (m_safe or fixed_impl()):
         if m_once != m_spec:
             raise RuntimeError("model differs from spec (contradicts C14_sound/C14_complete/C14_once): " + diff(m_once, m_spec))
         if m_twice != m_once:
             raise RuntimeError("model not idempotent (contradicts C14_idempotent)")
-    finding = "C14-F4" if (wf and f4) else None
+    # with the repair in the implementation the region of C14-F4 is an ordinary region: a failure there is a violation
+    finding = "C14-F4" if (wf and f4 and not fixed_impl()) else None
 
     # ---- implementation
     try:
@@ -617,7 +632,8 @@ def check_dsl(case, M):
     if mixed:
         tags.append("same-name-different-restriction")
     if f4:
-        tags.append("region-C14-F4")
+        tags.append("region-C14-F4" if not fixed_impl() else "former-region-C14-F4")
+    tags.append("code-variant: " + ("with the repair of C14-F4" if fixed_impl() else "without the repair of C14-F4"))
     if not wf:
         tags.append("malformed")
     return {"key": json.dumps([bound, sorted((n, canon(t)) for n, t in syntax)]),
@@ -629,7 +645,7 @@ def check_dsl(case, M):
 def check_ty(case, M):
     t, o, name, v = case["t"], case["o"], case["name"], case["v"]
     failures = []
-    ans = dict((str(a[0]), a[1]) for a in M.ask([Sym("c14.ty"), wire(t)]))
+    ans = dict((str(a[0]), a[1]) for a in M.ask([Sym("c14.ty"), int(fixed_impl()), wire(t)]))
     rel = dict((str(a[0]), a[1]) for a in M.ask([Sym("c14.rel"), wire(t), wire(o)]))
     uni = unwire(M.ask([Sym("c14.unify"), name, wire(v), wire(t)]))
     it, io, iv = to_impl(t), to_impl(o), to_impl(v)
@@ -702,8 +718,11 @@ def corpus():
     # C14-F3: restricted and bare variable of the same name
     c.append({"kind": "dsl", "bound": 1, "syntax": [["f", A(F("a", [S([P("int"), P("bool")])]), V("a"))], ["g", P("bool")], ["h", P("string")], ["i", P("int")]]})
     c.append({"kind": "dsl", "bound": 1, "syntax": [["f", A(V("a"), F("a", [S([P("int"), P("bool")])]))], ["g", P("bool")], ["h", P("string")], ["i", P("int")]]})
-    # C14-F4 (open): function argument returning unit next to a unit argument
+    # C14-F4: function argument returning unit next to a unit argument (known finding on a tree without
+    # fixes_proposed/C14-F4.diff, must pass on a tree with it); second witness: not idempotent
     c.append({"kind": "dsl", "bound": 1, "syntax": [["f", arrows([UNIT, A(P("int"), UNIT)], P("int"))]]})
+    c.append({"kind": "dsl", "bound": 1, "syntax": [["f", arrows([UNIT, A(UNIT, UNIT)], P("int"))]]})
+    c.append({"kind": "dsl", "bound": 1, "syntax": [["each", arrows([S([UNIT, P("int")]), A(V("a"), UNIT), G("list", [V("a")])], UNIT)], ["c", P("int")], ["d", P("bool")]]})
     # size test uses the substituted type; nested generics; several variables
     c.append({"kind": "dsl", "bound": 2, "syntax": [["m", arrows([A(V("a"), V("b")), G("list", [V("a")])], G("list", [V("b")]))], ["c", P("int")], ["d", P("bool")]]})
     c.append({"kind": "dsl", "bound": 3, "syntax": [["m", A(G("list", [G("list", [V("a")])]), V("a"))], ["c", P("int")]]})
